@@ -34,7 +34,8 @@ COMPONENTS = {
     'stub': ['user objective with failure plan', 'PRNG seam (seeded + extreme legal draws)', 'joblib', 'time.time', 'uuid1'],
 }
 PROBES_EXPECTED = ['evaluated_vectors', 'sbx_calls', 'pm_calls', 'um_calls', 'num_calls', 'generator_calls', 'prng_extreme',
-                   'on_lower_bound', 'on_upper_bound', 'reroll_checked', 'operators_family', 'coincident_parents']
+                   'on_lower_bound', 'on_upper_bound', 'reroll_checked', 'operators_family', 'coincident_parents',
+                   'second_run_after_narrowing']
 
 
 def run_one(D, opts=None):
@@ -105,12 +106,33 @@ def _run(D):
                         fails=('none', 'light', 'heavy'), fail_weights=(3, 2, 1))
     ctx, w = info.ctx, info.w
     ctx.probe(info.kind)
+    first_calls = 0
+    if D.dec('cfg', 'second_run', 4) == 1:
+        # a first study, then the user narrows the box in place and runs the SAME algorithm object again: operators that
+        # were built earlier (SMPSO / PSOGA build their mutator in the constructor) must respect the box as it is now
+        import contextlib
+        fp, w.fail_p = w.fail_p, 0.0
+        try:
+            with W.quiet():
+                info.alg.run()
+        except (kernel.Deadlock, kernel.StepCap):
+            raise
+        except Exception:
+            pass            # judged below by the ordinary rules on the second run
+        w.fail_p = fp
+        first_calls = len(w.calls)
+        for wp_, pp_ in zip(w.params, w.problem.parameters):
+            lb, ub = wp_['bounds']
+            nb = [lb + 0.25 * (ub - lb), ub - 0.25 * (ub - lb)]
+            wp_['bounds'] = list(nb)
+            pp_['bounds'] = list(nb)
+        ctx.probe('second_run_after_narrowing')
     monitors.set_hooks(**_op_hooks(ctx, w, None))
     runfam.execute(info)
     site = 'run of ' + info.kind
     runfam.judge_abort(info, site, clause=None)
     seen = {}
-    for c in w.calls:
+    for c in w.calls[first_calls:]:
         ctx.check()
         ctx.probe('evaluated_vectors')
         if c.attempt > 0:
